@@ -63,6 +63,18 @@ fn keygen_events<V: Fv>(proc_id: u64, seed: u64, bases: usize, flips: usize, con
             evs.push(keygen_event::<V>(proc_id, 0, evs.len(), *base, "repeat-after-signing"));
         }
     }
+    // A-B-A on one thread, and the other variant in between (a cache keyed too coarsely would answer A's key for B or B's for A)
+    if base_seeds.len() >= 2 {
+        evs.push(keygen_event::<V>(proc_id, 0, evs.len(), base_seeds[0], "aba"));
+        evs.push(keygen_event::<V>(proc_id, 0, evs.len(), base_seeds[1], "aba"));
+        evs.push(keygen_event::<V>(proc_id, 0, evs.len(), base_seeds[0], "aba"));
+        let mut near = base_seeds[0];
+        near[31] ^= 0x80;
+        evs.push(keygen_event::<V>(proc_id, 0, evs.len(), near, "aba-near"));
+        near[0] ^= 0x01;
+        evs.push(keygen_event::<V>(proc_id, 0, evs.len(), near, "aba-near"));
+        evs.push(keygen_event::<V>(proc_id, 0, evs.len(), base_seeds[0], "aba"));
+    }
     // byte sweeps: every value of seed byte 0 (and extreme values of bytes 15, 31) on an all-zero and an all-ones base: the
     // seed is consumed byte-wise, so wrap-around / saturation / truncation mistakes show at 0x00, 0x7f, 0x80, 0xff
     if flips > 0 {
